@@ -145,6 +145,27 @@ impl World {
     }
 }
 
+/// Run `f`, then delete the RocksDB directories of the temp-db nodes it started and dropped: SharedBuilder::with_temp_db
+/// keeps every database of the process under one never-dropped TempDir (`$TMPDIR/.tmpXXXX/db_<n>`, 75 MB of preallocated
+/// WAL each), so they would pile up until the process ends. No node is alive between two calls.
+fn with_tmp<T>(_tag: &str, f: impl FnOnce() -> T) -> T {
+    let r = f();
+    if let Ok(rd) = std::fs::read_dir(std::env::temp_dir()) {
+        for e in rd.flatten() {
+            if e.file_name().to_string_lossy().starts_with(".tmp") && e.path().is_dir() {
+                if let Ok(inner) = std::fs::read_dir(e.path()) {
+                    for d in inner.flatten() {
+                        if d.file_name().to_string_lossy().starts_with("db_") {
+                            let _ = std::fs::remove_dir_all(d.path());
+                        }
+                    }
+                }
+            }
+        }
+    }
+    r
+}
+
 fn dig(bytes: &[u8]) -> String {
     let mut h = std::collections::hash_map::DefaultHasher::new();
     h.write(bytes);
@@ -363,7 +384,7 @@ fn replay(args: &[String]) {
     let input = opt(args, "--in").expect("--in");
     let nodes = opt(args, "--nodes").unwrap_or("ABC").to_string();
     let _ = opt_u64(args, "--seed", 1);
-    let mut w = World::new();
+    let mut w = with_tmp("world", World::new);
     let text = std::fs::read_to_string(input).unwrap();
     let mut n = 0;
     for line in text.lines() {
@@ -374,7 +395,7 @@ fn replay(args: &[String]) {
         let hist = rec["hist"].as_array().unwrap().clone();
         let mut logs = vec![];
         for kind in nodes.chars() {
-            logs.push(run_history(&mut w, &kind.to_string(), &hist));
+            logs.push(with_tmp("hist", || run_history(&mut w, &kind.to_string(), &hist)));
         }
         println!("{}", json!({"history": {"id": rec["id"], "hist": hist, "logs": logs}}));
         n += 1;
